@@ -41,11 +41,41 @@ var (
 	baseConfOnce sync.Once
 )
 
+// logRing keeps the last lines the code under test wrote through the standard logger
+// (it logs, and otherwise swallows, errors on several asynchronous paths).
+type logRing struct {
+	mu    sync.Mutex
+	lines []string
+}
+
+func (r *logRing) Write(p []byte) (int, error) {
+	r.mu.Lock()
+	r.lines = append(r.lines, string(p))
+	if len(r.lines) > 400 {
+		r.lines = append([]string{}, r.lines[len(r.lines)-200:]...)
+	}
+	r.mu.Unlock()
+	return len(p), nil
+}
+
+func (r *logRing) tail(n int) []string {
+	r.mu.Lock()
+	defer r.mu.Unlock()
+	l := r.lines
+	if len(l) > n {
+		l = l[len(l)-n:]
+	}
+	return append([]string{}, l...)
+}
+
+var serverLog = &logRing{}
+
 func quietLogs() {
 	if os.Getenv("VERIF_LOGS") != "" {
 		return
 	}
-	log.SetOutput(io.Discard)
+	log.SetOutput(serverLog)
+	_ = io.Discard
 }
 
 type InstOpts struct {
